@@ -297,6 +297,14 @@ func (c *Client) Listen() error {
 				break
 			}
 
+			if n > len(buf) {
+				// A stream transport reports the length of the whole frame even when
+				// only its head fitted into buf: there is nothing usable to hand on.
+				c.log.Debugf("Dropped a message of %d bytes, larger than the read buffer", n)
+
+				continue
+			}
+
 			// A datagram that cannot be handled (malformed, a STUN request, an unknown
 			// channel, ...) is discarded; it must not stop the client from reading the
 			// responses and indications that follow, whoever sent it.
